@@ -28,6 +28,7 @@ STR_NEAR50 = ["m" * 49, "m" * 50, "m" * 48 + "n", "m" * 51]
 STR_UNI = ["é", "漢字", "ｗｉｄｅ", "ö", "é", "ß", "ı"]
 STR_ASTRAL = ["\U0001F600", "\U0001F600a", "a\U0001F600", "\U00010000"]
 STR_FFFF = ["￿", "￿a"]
+STR_NULLISH = ["None", "nan", "NaN", "NA", "null", "NaT", "True", "inf", "0.0"]     # ordinary strings that look like missing / other types
 
 DATES = [datetime.date(1970, 1, 1), datetime.date(1969, 12, 31), datetime.date(2000, 2, 29),
          datetime.date(2020, 12, 31), datetime.date(2021, 1, 3), datetime.date(2024, 2, 29),
@@ -82,6 +83,9 @@ def pool(rng, kind, hostile=0.25, tags=None):
             elif r < 0.4:
                 p += STR_FFFF
                 if tags is not None: tags.add("str_ffff")
+            elif r < 0.6:
+                p += STR_NULLISH
+                if tags is not None: tags.add("str_nullish")
         return p
     if kind == "lstr":
         p = list(STR_LONG)
